@@ -25,6 +25,7 @@ EXPLANATION = (
     "closure exactly once, with the item, and resolves to the closure future's own output; (STACK) every adapter's drive wraps the "
     "given consumer exactly once and returns inner.drive(wrapped).await; adapter structs are built only by their `new` and never "
     "mutated; collect = B::from_concurrent_stream(self). Multiset equality itself is a value-level fact that is argued, not computed.")
+EXPLANATION += (' (GROUP) premise re-checked here: the FutureGroup holding the item futures registers every pushed future completely, polls every armed member, yields each output exactly once and reports None only when empty; adapter constructors store their operands unchanged.')
 ASSUMPTIONS = [
     "futures_buffered::FuturesUnordered yields each pushed future's output exactly once (library model)",
     "the source-side exactly-once delivery of items to send() is C13.DRIVE",
